@@ -6,12 +6,16 @@ C13 — Tree assembly: one correctly named group per image, none dropped or swap
   replaced) — which is why `group_name_injective` (names are injective on (polarisation, scan number)) matters.
 * `roles_independent_of_line_order` — the volume-directory / leader / image / trailer roles depend only on the numbered
   `ProductFileNameNN` entries, not on where their lines stand in the summary (repaired code).
+* `metadata_children` — for EVERY leader file that parses, `/metadata` has exactly the record groups present in the leader:
+  attitude, data_quality_summary, dataset_summary, platform_position, radiometric_data, transformations, plus map_projection
+  exactly when the file holds at least one map-projection record (and `C04.metadata` says what each contains).
 * `root_children` — the root has exactly `summary`, `metadata`, `imagery`; root attributes: C16 `root_attrs`.
 
 `DataTree.from_dict`, `Dataset.set_coords` (coordinate promotion) are xarray's: exercised end-to-end, not proved.
 -/
 import Alos2.Proofs.AssembleProofs
 import Alos2.Proofs.Decode
+import Alos2.Proofs.MetadataNames
 
 namespace Alos2.C13
 
@@ -33,6 +37,20 @@ theorem group_names_injective (p₁ p₂ : String) (n₁ n₂ : Option Char)
 
 theorem roles_independent_of_line_order (e₁ e₂ : Section) (hp : e₁.Perm e₂) (hd : (e₁.map Prod.fst).Nodup) :
     fileRoles e₁ = fileRoles e₂ := fileRoles_perm e₁ e₂ hp hd
+
+theorem metadata_children (bs : Bytes) (v : Val) (pos' : Nat)
+    (h : parse Gen.sarLeaderRecord [] bs 0 = .ok (v, pos')) :
+    ∃ k na nc : Nat,
+      v.getPath ["file_descriptor", "map_projection", "number_of_records"] = some (.leaf (.int k)) ∧
+      v.getPath ["attitude", "number_of_points"] = some (.leaf (.int na)) ∧
+      v.getPath ["data_quality_summary", "number_of_channels"] = some (.leaf (.int nc)) ∧
+      (0 < na → 0 < nc → ∀ g, (transformLeaderMetadata realLeafFns3 v.toPVal).map Grp.sortKeys = some g →
+        g.groupNames = ["attitude", "data_quality_summary", "dataset_summary"] ++
+          (if 0 < k then ["map_projection"] else []) ++ ["platform_position", "radiometric_data", "transformations"]) := by
+  obtain ⟨k, na, nc, h1, h2, h3, hn⟩ := metadata_group_names bs v pos' h
+  refine ⟨k, na, nc, h1, h2, h3, fun a b g hg => ?_⟩
+  have := hn a b g hg
+  simpa [metadataNames] using this
 
 theorem root_children : rootChildren = ["summary", "metadata", "imagery"] := rfl
 
